@@ -248,6 +248,8 @@ func asm14RealExec(c *Ctx, op string) {
 		"w5": {d(""), fl("file5", "five"), d("d5"), fl("d5/inner5", "i5")},
 		// w7 carries a two-hop chain: `hop` -> `hop2` (relative, no dots), `hop2` -> the outside (absolute)
 		"w7": {d(""), fl("file7", "seven"), ln("hop", "hop2"), ln("hop2", sandboxOutside), ln("rel", "d"), d("d")},
+		// w9 shadows the root's pre-existing directory `pre` with one of its own (another mtime) and brings a link to it
+		"w9": {d(""), fl("file9", "nine"), Entry{Name: "pre", Kind: 'd', Perms: 0755, Uid: 7, Gid: 7, Sec: 1.1e9}, ln("zlnk", "pre")},
 		// w6 is an empty fileset: one directory with properties of its own, nothing in it
 		"w6": {Entry{Name: "", Kind: 'd', Perms: 0750, Uid: 4000, Gid: 5000, Sec: 1.45e9}},
 	}
@@ -355,6 +357,16 @@ func asm14RealExec(c *Ctx, op string) {
 			c.PropFail("mount-left", fmt.Sprintf("%s, mounts remain under its root: %v", what, left), op)
 		}
 		unmountAllUnder(root)
+		// whatever happened — accepted and torn down, or refused half way — the root's own directories that a ware at "/"
+		// merely shadowed keep their mtimes (nothing was created in them: the ware's twin received it)
+		for _, x := range ins {
+			if x.path == "/" && x.kind == "w9" {
+				if st, e := os.Lstat(filepath.Join(root, "pre")); e == nil && st.ModTime().Unix() != 1200000000 {
+					c.PropFail("asm-filler", fmt.Sprintf("after the assembly (%s) and its teardown, the root's own directory /pre — shadowed by the ware at / all along — carries mtime %d instead of 1200000000", res, st.ModTime().Unix()), op)
+				}
+				c.H("asm14-shadowed-mtime:" + strings.Fields(res)[0])
+			}
+		}
 		return res, sn
 	}
 	n := len(ins)
@@ -707,6 +719,8 @@ func asm14Engine(c *Ctx) {
 	corpus := [][]string{
 		{"/a:1", "/ab:0"}, {"/a:1", "/a/b:0"}, {"/data:1", "/data-extra:0", "/data/sub:0"}, {"/:1", "/x:0"}, {"/a:0", "/a/b:1", "/a/b/c:0"},
 		{"/a b:1", "/a!:0", "/a:0"},
+		// two mounts, the second sorting between the first and the first's children ('.', '-', ' ', '!' < '/')
+		{"/a:1", "/a.b:1", "/a/b:0"}, {"/data:1", "/data-extra:1", "/data/sub:0"}, {"/a:1", "/a b:1", "/a!:1", "/a/b/c:0"}, {"/a:1", "/a-b:1", "/a/b:1"},
 	}
 	emitPlan := func(items []string) {
 		var toks []string
@@ -751,6 +765,8 @@ func asm14Engine(c *Ctx) {
 		"/=w8,/x=w0,/lib/plug=w5", "/=w8,/x=w0,/lib/d/plug=w1", "/=w8,/lib/plug=w0",
 		"/=w7,/hop/x=w0", "/=w7,/hop/osub/y=w0", "/=w7,/rel/x=w0", "/a=w7,/a/hop/x=rw", "/=w7,/hop2/x=w5",
 		"/=w0,/d=w6", "/=w1,/d=w6,/d/deep/z=w0", "/a=w5,/a/d5=w6", "/=w6", "/x/y=w6",
+		"/=w9,/pre/new/x=w0,/zlnk/q=w0", "/=w9,/pre/new/x=w0", "/=w9,/pre/new/deeper/x=ro,/zlnk/q/r=w1", "/=w9,/pre/existing/k=w0,/zz=w0,/zlnk/q=rw",
+		"/a=rw,/a-b=ro,/a/x=w0", "/data=rw,/data-extra=rw,/data/sub=w5", "/a=rw,/a.b=rw,/a/b=w1", "/a=ro,/a-b=rw,/a/b/c=w0",
 		"/=w1,/lnk=w0", "/=w1,/lnk=ro", "/=w1,/lnk=rw", "/=w2,/abs=w0", "/=w2,/abs=rw", "/=w3,/up=ro", "/a=w1,/a/lnk=rw", "/a=w2,/a/abs=ro",
 	}
 	for _, rc := range realCorpus {
